@@ -114,6 +114,10 @@ func (t *XMPPTransport) StartTLS() error {
 }
 
 func (t *XMPPTransport) Ping() error {
+	if t.conn == nil {
+		// Not connected (yet, or a connection attempt has just failed)
+		return errors.New("cannot ping: not connected")
+	}
 	n, err := t.conn.Write([]byte("\n"))
 	if err != nil {
 		return err
@@ -139,6 +143,9 @@ func (t *XMPPTransport) Write(p []byte) (n int, err error) {
 }
 
 func (t *XMPPTransport) Close() error {
+	// What is closed is the connection of this moment: while we wait for the server's closing tag
+	// below, a reconnection may give the transport a new one.
+	conn := t.conn
 	if t.readWriter != nil {
 		_, _ = t.readWriter.Write([]byte(stanza.StreamClose))
 	}
@@ -149,8 +156,8 @@ func (t *XMPPTransport) Close() error {
 	case <-time.After(time.Duration(t.Config.ConnectTimeout) * time.Second):
 	}
 
-	if t.conn != nil {
-		return t.conn.Close()
+	if conn != nil {
+		return conn.Close()
 	}
 	return nil
 }
